@@ -174,7 +174,7 @@ func genReqs(n int) string {
 	return strings.Join(reqs, ";")
 }
 
-func runHTTP(m map[string]string) string {
+func runHTTP(m map[string]string) (out string) {
 	if n := atoi(m["gen"], 0); n > 0 {
 		m["reqs"] = genReqs(n)
 	}
@@ -188,38 +188,59 @@ func runHTTP(m map[string]string) string {
 	}
 	g := shot.HTTPGunConf{Type: m["gun"], AutoTag: m["auto"] == "1", Elements: atoi(m["el"], 0), NoTagOnly: m["nto"] == "1",
 		RHTimeoutMs: atoi(m["rht"], 0)}
-	o := optsOf(m)
-	switch m["tgt"] {
-	case "dead":
-		g.Target = shot.DeadAddr()
-	case "tls2":
-		g.Target = sharedTLS(true)
-	case "tls1":
-		g.Target = sharedTLS(false)
-	case "r3":
-		g.Target = r3SharedRaw()
-	case "r3tls2":
-		g.Target = r3SharedTLS(true)
-	case "r3tls1":
-		g.Target = r3SharedTLS(false)
-	case "nd", "nf", "nl":
-		// round 4: a host NAME nobody listens at while the gun is configured (the DNS-caching dialer stays in the transport)
-		name, after, done := r4NamedTarget(m["tgt"])
-		defer done()
-		g.Target = name
-		o.afterDecode = after
-		if o.afterDecode == nil {
-			o.afterDecode = func([]engine.InstancePoolConfig) string { return "" }
-		}
-	default:
-		g.Target = sharedTarget()
-	}
 	inst := atoi(m["inst"], 1)
-	conf := spliceGunOpts(shot.HTTPPool(g, reqs, inst), m)
-	if d := atoi(m["dto"], 0); d > 0 {
-		conf = strings.Replace(conf, "dial: {timeout: 2s}", fmt.Sprintf("dial: {timeout: %dms}", d), 1)
+	// one run of the pool; plain: with `dial: {dns-cache: false}` (round 4: the reference run of a `dref=1` case). A named
+	// target (round 4) is set up anew for every run.
+	runOnce := func(plain bool) shot.Result {
+		g, o := g, optsOf(m)
+		switch m["tgt"] {
+		case "dead":
+			g.Target = shot.DeadAddr()
+		case "tls2":
+			g.Target = sharedTLS(true)
+		case "tls1":
+			g.Target = sharedTLS(false)
+		case "r3":
+			g.Target = r3SharedRaw()
+		case "r3tls2":
+			g.Target = r3SharedTLS(true)
+		case "r3tls1":
+			g.Target = r3SharedTLS(false)
+		case "nd", "nf", "nl":
+			// round 4: a host NAME nobody listens at while the gun is configured (the DNS-caching dialer stays in the transport)
+			name, after, done := r4NamedTarget(m["tgt"], atoi(m["down"], 0))
+			defer done()
+			g.Target = name
+			o.afterDecode = after
+			if o.afterDecode == nil {
+				o.afterDecode = func([]engine.InstancePoolConfig) string { return "" }
+			}
+		default:
+			g.Target = sharedTarget()
+		}
+		conf := spliceGunOpts(shot.HTTPPool(g, reqs, inst), m)
+		if m["prov"] == "uripost" {
+			// round 4: the same requests as POSTs with a body (uripost provider): a 307 / 308 is followed WITH the body
+			conf = r4AsURIPost(conf, reqs)
+		}
+		if d := atoi(m["dto"], 0); d > 0 {
+			conf = strings.Replace(conf, "dial: {timeout: 2s}", fmt.Sprintf("dial: {timeout: %dms}", d), 1)
+		}
+		if plain {
+			conf2 := strings.Replace(conf, "dial: {timeout: ", "dial: {dns-cache: false, timeout: ", 1)
+			if conf2 == conf {
+				return shot.Result{Class: "config:no-dial-section"}
+			}
+			conf = conf2
+		}
+		return runEngineOpt(conf, o, 40*time.Second)
 	}
-	res := runEngineOpt(conf, o, 40*time.Second)
+	res := runOnce(false)
+	if m["dref"] == "1" {
+		// round 4: the same requests once more with `dial: {dns-cache: false}` — net.Dialer itself is the transport's dialer.
+		// Which helper dials must not show in the coding of the failure (r4DialRef).
+		defer func(ref string) { out += ref }(r4DialRef(runOnce(true)))
+	}
 	if inst > 1 {
 		// several instances: which request got which id depends on the interleaving of the Acquire calls. Every ammo of
 		// such a case carries the unique tag r<i>; samples are printed under the REQUEST's number (from the tag) and the
@@ -1473,6 +1494,12 @@ func class(input, obs string) string {
 		}
 		if strings.Contains(input, ",c:") {
 			c += ":redirect-chains"
+		}
+		if m["prov"] != "" {
+			c += ":" + m["prov"]
+		}
+		if m["down"] != "" {
+			c += ":target-goes-away"
 		}
 		if m["inst"] != "" {
 			c += ":multi"
